@@ -68,6 +68,8 @@ MENU40 = (
 )
 
 
+GRAM_TEMPLATES = ("DURATION:{}", "TRIGGER:{}", "TRIGGER;RELATED=END:{}", "FREEBUSY:19970308T160000Z/{}",
+                  "RDATE;VALUE=PERIOD:19970101T180000Z/{},19970102T180000Z/19970102T190000Z")
 VTZ_OBSERVANCES = (
     ["BEGIN:STANDARD", "DTSTART:19961027T030000", "TZOFFSETFROM:+0200", "TZOFFSETTO:+0100", "TZNAME:CET",
      "RRULE:FREQ=YEARLY;UNTIL=20201025T010000Z;BYDAY=-1SU;BYMONTH=10", "END:STANDARD"],
@@ -325,6 +327,12 @@ def run_case(case):
         text = eol.join((eol + ws).join(ln[k:k + j] for k in range(0, len(ln), j)) for ln in lines) + eol
         outcome = judge(text, case, fails, False)
         nt = True
+    elif kind == "gram":
+        # every text of the RFC duration grammar (refmodel/rfc_values.durations_grammar) in the lines that carry durations
+        _, provider, ti, text_ = case
+        text = wrap("VTODO", [GRAM_TEMPLATES[ti].replace("{}", text_)])
+        outcome = judge(text, case, fails, False)
+        nt = True
     elif kind == "vtz":
         # complete time zone definitions: parsing them feeds the provider's cache (and, under zoneinfo, a conversion
         # that rewrites UNTIL on a copy) - the tree handed to the caller must still denote the text
@@ -359,7 +367,7 @@ def run(ctx):
                 f"14-symbol alphabet with |s| <= {k} x 3 containers, and {len(TYPED)} typed lines x 3 containers x 2 providers; (3) every "
                 f"ordered pair" + ("" if ctx.quick else " and triple (first 16 lines)") + f" of a {len(MENU40)}-line menu x 3 containers; (4) VTIMEZONE definitions: every ordered selection of <= 2 of "
                 f"{len(VTZ_OBSERVANCES)} observances (rules with UTC UNTIL / COUNT / none, RDATE lists) x 3 TZIDs x with/without a VEVENT using it x "
-                "inside VCALENDAR or bare x 2 providers. "
+                "inside VCALENDAR or bare x 2 providers; (5) all 548 texts of the RFC duration grammar over {0,1,10,99} x signs in DURATION, TRIGGER, TRIGGER;RELATED=END and as the duration of FREEBUSY / RDATE periods. "
                 "For trees, typed lines and menu cases additionally the history parse(T); mutate the result in place (parameters, list values, rule parts, children); parse(T) again -> same tree and bytes. "
                 "non-trivial = nested tree / string with a delimiter or escape character / >= 2 lines.")
     ctx.bounds = {"max_nodes": n, "alphabet": [repr(c) for c in SIGMA], "k": k, "typed_lines": len(TYPED), "menu": len(MENU40)}
@@ -407,6 +415,15 @@ def run(ctx):
                         for in_calendar in (True, False):
                             yield ("vtz", provider, tzid, obs_idx, with_event, in_calendar)
 
+    def gen_gram():
+        from mc.refmodel import rfc_values as V
+        texts = list(V.durations_grammar())
+        for ti in range(len(GRAM_TEMPLATES)):
+            for t in texts:
+                signs = ("", "+", "-") if ti < 3 else ("", "+")  # the duration of a period is positive
+                for sg in signs:
+                    yield ("gram", "zoneinfo", ti, sg + t)
+
     def gen_inter():
         for cont in CONTAINERS:
             for a in range(len(MENU40)):
@@ -421,3 +438,4 @@ def run(ctx):
     ctx.explore("2:single-line", gen_lines, run_case)
     ctx.explore("3:interaction", gen_inter, run_case)
     ctx.explore("4:timezone-definitions", gen_vtz, run_case)
+    ctx.explore("5:duration-grammar", gen_gram, run_case)
